@@ -84,15 +84,13 @@ def pop_step(draw):
     c = draw(
         st.sampled_from(
             [
-                "open", "open", "stat", "list", "listn", "uidl", "uidln", "retr", "retr", "retr", "top", "top",
-                "dele", "dele", "dele", "dele", "rset", "noop", "capa", "unknown", "quit", "quit", "quit", "drop", "drop",
+                "open", "stat", "list", "listn", "uidl", "uidln", "retr", "retr", "retr", "top", "top",
+                "dele", "dele", "dele", "dele", "dele", "rset", "rset", "noop", "capa", "unknown", "quit", "quit", "drop",
             ]
         )
     )
-    s = {"op": "pop", "p": p, "c": c}
-    if c == "open":
-        s["obs"] = draw(st.booleans())
-    elif c in ("listn", "uidln", "retr", "dele"):
+    s = {"op": "pop", "p": p, "c": c, "obs": draw(st.booleans())}  # obs: observe INBOX by IMAP just before an (implicit) open
+    if c in ("listn", "uidln", "retr", "dele"):
         s["n"] = draw(numarg())
     elif c == "top":
         s["n"] = draw(numarg())
@@ -107,13 +105,13 @@ def imap_step(draw):
     s = draw(st.sampled_from(IMAPS))
     c = draw(
         st.sampled_from(
-            ["append", "append", "append", "del", "del", "del", "expunge", "expunge", "expunge", "uidexpunge", "close", "move", "move", "uidmove", "noop", "undel"]
+["append", "append", "append", "del", "del", "expunge", "expunge", "delexp", "delexp", "delexp", "uidexpunge", "close", "move", "move", "uidmove", "noop", "undel"]
         )
     )
     d = {"op": "imap", "s": s, "c": c}
     if c == "append":
         d["msg"] = draw(msgspec())
-    elif c in ("del", "undel", "move", "uidmove", "uidexpunge"):
+    elif c in ("del", "undel", "delexp", "move", "uidmove", "uidexpunge"):
         d["set"] = draw(st.lists(st.integers(0, 9), min_size=1, max_size=3))
     return d
 
@@ -123,7 +121,7 @@ def any_step():
         pop_step(), pop_step(), pop_step(), pop_step(), pop_step(), pop_step(),
         imap_step(), imap_step(), imap_step(),
         st.builds(lambda m, k: {"op": "deliver", "msgs": m[: k or 1]}, st.lists(msgspec(), min_size=1, max_size=2), st.integers(1, 2)),
-        st.builds(lambda t: {"op": "advance", "t": t}, st.sampled_from([1, 6, 25, 25, 45])),
+        st.builds(lambda t: {"op": "advance", "t": t}, st.sampled_from([1, 6, 25, 25, 45, 12.5, 30.25])),
     )
 
 
@@ -136,6 +134,8 @@ def strategy(tier, shard, nshards):
             "prefill": st.lists(st.tuples(msgspec(), st.booleans()).map(lambda t: {"msg": t[0], "append": t[1]}), min_size=1, max_size=6),
             "predelete": st.lists(st.integers(0, 5), min_size=0, max_size=2),
             "steps": st.lists(any_step(), min_size=6, max_size=mx),
+            # what happens to sessions p and q that are still open after the last step
+            "end": st.lists(st.sampled_from(["quit", "quit", "drop", "leave"]), min_size=2, max_size=2),
         }
     )
 
@@ -246,6 +246,7 @@ def execute(trace) -> CaseResult:
         "ntag": 0,
         "pending_content": [],  # (session name, number, uid, tag, normalised RETR body)
         "blocked": None,
+        "tag_uid": {},  # tag -> IMAP UID first observed
     }
     pops: dict[str, PopState] = {}
     imaps = {}
@@ -272,15 +273,21 @@ def execute(trace) -> CaseResult:
         return out
 
     def renumbered(ps: PopState) -> str:
-        """sig helper: did message files change their MH key since the snapshot?"""
+        """sig helper (never part of a verdict): did a message file change its MH key
+        since the snapshot (pack), or was a key of the snapshot given to a new message?"""
         now = disk_keymap()
         inv_now = {t: k for k, t in now.items()}
         for k, t in ps.keymap.items():
             if t in inv_now and inv_now[t] != k:
                 return "renumbered"
+        for k, t in ps.keymap.items():
+            if k in now and now[k] != t:
+                return "key-reused"
         return ""
 
-    async def observe(what: str):
+    async def observe(what: str, judge_uids: bool = True):
+        """IMAP read-back of INBOX.  truth := observed rows + deliveries IMAP has not
+        noticed yet (C13's concern whether/when it notices them)."""
         o = imaps.get("obs")
         if o is None or not o.alive:
             o = w.session("obs")
@@ -294,14 +301,36 @@ def execute(trace) -> CaseResult:
         if any(t is None for _, t in rows) or len(rows) != (info["exists"] or 0):
             st_["blocked"] = "observer"
             raise _Blocked(f"observer read-back incomplete after {what}: {rows} exists={info['exists']}")
-        st_["truth"] = rows
-        # UIDL == IMAP UID for snapshot entries whose UID was not known at open time
-        by_tag = {t: u for u, t in rows}
+        seen = {t for _, t in rows}
+        pending = [[None, t] for u, t in st_["truth"] if u is None and t not in seen]
+        st_["truth"] = rows + pending
+        if pending:
+            labels.add("delivery-not-yet-noticed-by-imap(tolerated)")
+        changed = [(t, st_["tag_uid"][t], u) for u, t in rows if t in st_["tag_uid"] and st_["tag_uid"][t] != u]
+        for u, t in rows:
+            st_["tag_uid"].setdefault(t, u)
+        if changed and judge_uids:
+            # IMAP gave an existing message another UID with no POP3 QUIT involved: C02/C03's defect
+            st_["blocked"] = "C03"
+            raise _Blocked(f"IMAP UIDs changed after {what}: {changed}")
+        # learn the tags of snapshot entries that had no UID yet when the session opened
+        by_uid = {u: t for u, t in rows}
         for ps in pops.values():
             for i, t in enumerate(ps.tags):
-                if t in by_tag and by_tag[t] != ps.uids[i]:
-                    v("C20.uidl.not-imap-uid", f"session {ps.name}: UIDL of message {i + 1} ({t}) is {ps.uids[i]} but its IMAP UID is {by_tag[t]}", renumbered(ps))
+                if t is None and ps.uids[i] in by_uid:
+                    ps.tags[i] = by_uid[ps.uids[i]]
         return rows
+
+    def exists_now(ps, n):
+        """True / False / None (= the harness cannot tell yet) - is message n of the snapshot still in INBOX?"""
+        uid, tag = ps.uids[n - 1], ps.tags[n - 1]
+        if any(u == uid for u, _ in st_["truth"]):
+            return True
+        if tag is not None:
+            return tag in truth_tags()
+        if any(u is None for u, _ in st_["truth"]):
+            return None
+        return False
 
     def body_of(uid):
         e = st_["known"].get((st_["uv"], uid))
@@ -341,18 +370,22 @@ def execute(trace) -> CaseResult:
             labels.add("via:append")
             line = b"APPEND inbox {%d}\r\n%s" % (len(m), m)
             shown = f"APPEND inbox <{tag}>"
-        elif c in ("del", "undel", "move"):
+        elif c in ("del", "undel", "move", "delexp"):
             if not n:
                 return
             seqs = sorted({1 + i % n for i in step["set"]})
             ss = ",".join(map(str, seqs)).encode()
-            if c == "del":
+            if c == "delexp":
+                r0 = await s.cmd(b"STORE " + ss + b" +FLAGS.SILENT (\\Deleted)")
+                check_imap(r0, "STORE")
+                line = b"EXPUNGE"
+            elif c == "del":
                 line = b"STORE " + ss + b" +FLAGS (\\Deleted)"
             elif c == "undel":
                 line = b"STORE " + ss + b" -FLAGS (\\Deleted)"
             else:
                 line = b"MOVE " + ss + b" mb"
-            shown = line.decode()
+            shown = line.decode() if c != "delexp" else f"STORE {ss.decode()} +FLAGS (\\Deleted); EXPUNGE"
         elif c in ("uidmove", "uidexpunge"):
             if not known_uids:
                 return
@@ -446,7 +479,10 @@ def execute(trace) -> CaseResult:
             v("C20.size.changed", f"session {ps.name}: message {n} was listed with {old} octets, {where} now says {size}", where.split()[0] + (":" + renumbered(ps) if renumbered(ps) else ""))
         a = ps.delivered.get(n)
         if a is not None and a != size:
-            v("C20.size.list-vs-retr", f"session {ps.name}: {where} lists message {n} with {size} octets but RETR delivered {a}", renumbered(ps))
+            sig = renumbered(ps)
+            if size == 0 and exists_now(ps, n) is False:
+                sig = "zero-after-removal"
+            v("C20.size.list-vs-retr", f"session {ps.name}: {where} lists message {n} with {size} octets but RETR delivered {a}", sig)
 
     def check_pending_stat(ps):
         keep = []
@@ -497,7 +533,8 @@ def execute(trace) -> CaseResult:
             # carry on with the positions we can map
         ps.count = len(uids)
         ps.uids = uids
-        ps.tags = [truth[i][1] if i < len(truth) else None for i in range(len(uids))]
+        by_uid = {u: t for u, t in truth if u is not None}
+        ps.tags = [by_uid.get(u) for u in uids]  # None: delivered, first numbered inside the server; learnt at the next read-back
         ps.keymap = disk_keymap()
         pops[name] = ps
         labels.add("pop:open-observed" if obs else "pop:open-unobserved")
@@ -532,32 +569,50 @@ def execute(trace) -> CaseResult:
         return txt, None, "invalid"
 
     async def end_session(ps: PopState, how: str):
-        """After QUIT (how='quit') / drop: compare INBOX with the expectation."""
+        """After QUIT (how='quit') / drop: INBOX must be what it was minus exactly the marked messages."""
         before = [list(x) for x in st_["truth"]]
-        marked_tags = {ps.tags[n - 1] for n in ps.marked if ps.tags[n - 1] is not None} if how == "quit" else set()
+        marked_uids = {ps.uids[n - 1] for n in ps.marked} if how == "quit" else set()
         pops.pop(ps.name, None)
-        rows = await observe(how)
-        got = [t for _, t in rows]
-        exp = [t for _, t in before if t not in marked_tags]
+        rows = await observe(how, judge_uids=False)
         sig = renumbered(ps)
-        if got != exp:
-            lost = [t for t in exp if t not in got]
-            kept = [t for t in got if t in marked_tags]
-            other = [t for t in got if t not in exp and t not in marked_tags]
-            if how == "quit":
-                if lost:
-                    v("C20.quit.removed-unmarked", f"session {ps.name}: QUIT with marks {sorted(ps.marked)} (tags {sorted(marked_tags)}) removed {lost}; INBOX before {[t for _, t in before]}, after {got}", sig)
-                if kept:
-                    v("C20.quit.marked-survived", f"session {ps.name}: QUIT answered +OK but marked {kept} still in INBOX {got}", sig)
-                if not lost and not kept:
-                    v("C20.quit.inbox-differs", f"session {ps.name}: INBOX after QUIT {got}, expected {exp} (unexpected {other})", sig)
-            else:
-                v("C20.no-quit.removed", f"session {ps.name}: after {how} with marks {sorted(ps.marked)} INBOX is {got}, expected unchanged {exp} (lost {lost})", how + (":" + sig if sig else ""))
+        bsig = how if how != "quit" else ""
+        numbered_before = {t for u, t in before if u is not None}
+        unnumbered_before = {t for u, t in before if u is None}
+        exp = [[u, t] for u, t in before if u is not None and u not in marked_uids]
+        got_old = [[u, t] for u, t in rows if t in numbered_before]
+        got_new = [[u, t] for u, t in rows if t not in numbered_before]
+        clause_lost = "C20.quit.removed-unmarked" if how == "quit" else "C20.no-quit.removed"
+        stop = False
+        if [t for _, t in got_old] != [t for _, t in exp]:
+            exp_t = [t for _, t in exp]
+            got_t = [t for _, t in got_old]
+            lost = [t for t in exp_t if t not in got_t]
+            kept = [t for t in got_t if t not in exp_t]
+            if lost:
+                v(clause_lost, f"session {ps.name}: {how} with marks {sorted(ps.marked)} (UIDs {sorted(marked_uids)}) removed {lost}; INBOX before {before}, after {rows}", bsig + (":" + sig if sig else ""))
+            if kept:
+                v("C20.quit.marked-survived", f"session {ps.name}: QUIT answered +OK but marked {kept} (UIDs {sorted(marked_uids)}) still in INBOX {rows}", sig)
+            if not lost and not kept:
+                v("C20.quit.inbox-differs", f"session {ps.name}: INBOX after {how} {rows}, expected {exp} (order changed)", bsig + (":" + sig if sig else ""))
+        else:
+            moved = [(t, u0, u1) for (u0, t), (u1, _) in zip(exp, got_old) if u0 != u1]
+            if moved:
+                v("C20.quit.uid-changed" if how == "quit" else "C20.no-quit.uid-changed",
+                  f"session {ps.name}: after {how} with marks {sorted(ps.marked)} the surviving messages have other IMAP UIDs (tag, before, after): {moved}; "
+                  f"for IMAP clients and for other POP3 sessions these are removed and re-added messages", sig)
+                stop = True
+        for u, t in got_new:
+            if t not in unnumbered_before:
+                v("C20.quit.inbox-differs", f"session {ps.name}: INBOX after {how} contains {t} which was not there before", bsig + ":unexpected-message")
+            elif u in marked_uids:
+                v("C20.quit.marked-survived", f"session {ps.name}: QUIT answered +OK but marked UID {u} ({t}) still in INBOX {rows}", sig)
         if ps.mutated:
             res.nontrivial = True
         labels.add(f"end:{how}-" + ("with-marks" if ps.marked else "no-marks"))
         if ps.mutated:
             labels.add(f"end:{how}-after-imap-mutation")
+        if stop:
+            raise _Stop()
 
     async def do_pop(step):
         name = step["p"]
@@ -569,7 +624,7 @@ def execute(trace) -> CaseResult:
             await open_pop(name, bool(step.get("obs")))
             return
         if ps is None:
-            ps = await open_pop(name, False)
+            ps = await open_pop(name, bool(step.get("obs")))
             if ps is None:
                 return
         labels.add("cmd:" + c)
@@ -668,6 +723,8 @@ def execute(trace) -> CaseResult:
             if c == "retr":
                 line = f"RETR {txt}"
             else:
+                if cls == "invalid" and " " in txt:
+                    txt = "x"  # 'TOP 1 1 <k>' would be a different, valid command
                 line = f"TOP {txt} {step.get('k', '0')}".rstrip()
             rep = await pcmd(ps, line, True)
             if cls == "invalid":
@@ -689,10 +746,10 @@ def execute(trace) -> CaseResult:
             tag = ps.tags[n - 1]
             uid = ps.uids[n - 1]
             if not rep.ok:
-                if tag in truth_tags():
+                if exists_now(ps, n) is True:
                     v("C20.retr.refused" if c == "retr" else "C20.top.refused",
                       f"session {name}: '{line}' refused ({rep.line!r}) although message {tag} (UID {uid}) is still in INBOX", renumbered(ps))
-                else:
+                elif exists_now(ps, n) is False:
                     labels.add("retr:message-gone")
                 return
             if ps.mutated:
@@ -724,7 +781,7 @@ def execute(trace) -> CaseResult:
             if rep.ok:
                 ps.marked.add(n)
                 labels.add("dele:valid")
-            elif ps.tags[n - 1] in truth_tags():
+            elif exists_now(ps, n) is True:
                 v("C20.dele.refused", f"session {name}: 'DELE {n}' refused ({rep.line!r}) for an unmarked message that is still in INBOX", "")
             return
         if c == "rset":
@@ -787,16 +844,21 @@ def execute(trace) -> CaseResult:
         announced = int(m.group(1)) if m else None
         norm = body
         extra = False
-        if exp is not None:
-            if body == exp + b"\r\n":
-                extra = True
-        elif announced is not None and len(body) == announced + 2 and body.endswith(b"\r\n\r\n"):
+        if exp is not None and body == exp + b"\r\n":
+            extra = True
+        elif (exp is None or body != exp) and announced is not None and len(body) == announced + 2 and body.endswith(b"\r\n\r\n"):
             extra = True
         if extra:
             v("C20.retr.extra-crlf",
               f"session {name}: 'RETR {n}' announced {announced} octets and delivered {len(body)}: the message is followed by an additional CRLF before the terminator",
               "retr")
             norm = body[:-2]
+        mt = _TAG_RE.search(norm[:2000])
+        got_tag = mt.group(1).decode() if mt else None
+        if tag is not None and got_tag != tag:
+            sig = renumbered(ps)
+            v("C20.retr.content", f"session {name}: 'RETR {n}' (UIDL {uid}, message {tag}) delivered message {got_tag}", "other-message" + (":" + sig if sig else ""))
+            return  # sizes of two different messages are not comparable
         if announced is not None and announced != len(norm):
             v("C20.retr.octets", f"session {name}: 'RETR {n}' announced {announced} octets but delivered {len(norm)}", renumbered(ps))
         if announced is not None:
@@ -914,6 +976,10 @@ def execute(trace) -> CaseResult:
                     labels.add("pack-happened")
                     if pops:
                         labels.add("pack-happened-during-session")
+        # sessions still open after the last step end as the trace says
+        for name, how in zip(POPS, trace.get("end") or ["leave", "leave"]):
+            if name in pops and how in ("quit", "drop"):
+                await do_pop({"op": "pop", "p": name, "c": how})
         # deferred content comparisons (RETR of a message whose IMAP body was not yet known)
         if st_["pending_content"]:
             await observe("end")
@@ -933,6 +999,8 @@ def execute(trace) -> CaseResult:
     except _Blocked as e:
         res.blocked = st_["blocked"] or "setup"
         transcript.append({"blocked": str(e)})
+    except _Stop:
+        transcript.append({"stopped": "case ended after a defect that invalidates the rest of the history"})
     finally:
         res.vseconds = w.loop.time() - 1000.0
         w.close()
@@ -944,6 +1012,10 @@ def execute(trace) -> CaseResult:
 
 class _Blocked(Exception):
     pass
+
+
+class _Stop(Exception):
+    """End the case early (after a defect that invalidates the rest of the history)."""
 
 
 def finding_matches(finding, vj):
